@@ -240,17 +240,24 @@ func loadFindings() {
 	if p == "" {
 		p = "/verif/known_findings.json"
 	}
-	b, err := os.ReadFile(p)
-	if err != nil {
-		return
+	files := []string{p}
+	// per-property files next to the main one: known/<ID>.json (same schema)
+	more, _ := filepath.Glob(filepath.Join(filepath.Dir(p), "known", "*.json"))
+	sort.Strings(more)
+	files = append(files, more...)
+	for _, fn := range files {
+		b, err := os.ReadFile(fn)
+		if err != nil {
+			continue
+		}
+		var f struct {
+			Findings []Finding `json:"findings"`
+		}
+		if err := json.Unmarshal(b, &f); err != nil {
+			panic(fn + ": " + err.Error())
+		}
+		findings = append(findings, f.Findings...)
 	}
-	var f struct {
-		Findings []Finding `json:"findings"`
-	}
-	if err := json.Unmarshal(b, &f); err != nil {
-		panic("known_findings.json: " + err.Error())
-	}
-	findings = f.Findings
 }
 
 // OpenFinding returns the open known finding of this property whose match equals the
